@@ -237,9 +237,12 @@ void h_alloc_aligned(void) {
     else if (a.current == g_blk[0] || a.current == g_blk[1] || a.current == g_blk[2]) CQV_CANARY("alloc_aligned: fits in a later block");
 #endif
     else CQV_CANARY("alloc_aligned: new block");
-  } else if (size) {
+  }
+#ifndef CQV_NOFAIL
+  else if (size) {
     CQV_CANARY("alloc_aligned: can fail");
   }
+#endif
   release(&a);
   CQV_CANARY("alloc_aligned harness end");
 }
